@@ -142,6 +142,15 @@ def arrays(b):
         elementwise(b, F, "semia_eccen_derivatives", args, arr, pre, globals_env=GENV)
     dUdO, C, Mh = R("dU_dO"), R("moment_of_inertia"), R("host_mass")
     elementwise(b, FS, "spin_rate_derivative", dict(dU_dO=dUdO, moment_of_inertia=C, host_mass=Mh), ["dU_dO"], [sp.Gt(C, 0), sp.Gt(Mh, 0)])
+    # native replay: mixed arrays (one circular orbit among eccentric ones)
+    A_ = dict(semi_major_axis=[4.2e8, 4.2e8, 6.0e8], orbital_motion=[4.1e-5, 4.1e-5, 2.4e-5], eccentricity=[0.0, 0.05, 0.3], dU_dM_1=[1.0e-3, -2.0e-3, 5.0e-4], dU_dw_1=[7.0e-4, 3.0e-4, -1.0e-4],
+              dU_dM_2=[2.0e-3, 1.0e-3, -5.0e-4], dU_dw_2=[-3.0e-4, 2.0e-4, 1.0e-4])
+    for F, dual, mod in ((FS, False, "TidalPy.dynamics.single_dissipation"), (FD, True, "TidalPy.dynamics.dual_dissipation")):
+        base = dict(mass_1=8.9e22, mass_2=1.9e27)
+        for q, keys in (("semi_major_axis_derivative", ["semi_major_axis", "orbital_motion", "dU_dM_1"] + (["dU_dM_2"] if dual else [])),
+                        ("eccentricity_derivative", ["semi_major_axis", "orbital_motion", "eccentricity", "dU_dM_1", "dU_dw_1"] + (["dU_dM_2", "dU_dw_2"] if dual else [])),
+                        ("semia_eccen_derivatives", ["semi_major_axis", "orbital_motion", "eccentricity", "dU_dM_1", "dU_dw_1"] + (["dU_dM_2", "dU_dw_2"] if dual else []))):
+            b.replayer(f"{F}::{q}::ensures:array_is_elementwise*", make_elementwise_replayer(mod, q, base, {k_: A_[k_] for k_ in keys}))
 
 
 def _denom_big(p):
